@@ -224,6 +224,12 @@ def is_supported(cfg) -> bool:
             pi = nodes[c["in"]]["period"]
             if nodes[c["out"]]["delay"] >= pi or c["delay"] >= pi:
                 return False
+            # ... and neither end of it may be a node that cannot keep up with its own rate (expected computation delay >= own period: rex's
+            # own warning "The sampling time is smaller than the output phase"): inside a blocking feedback loop its lag grows without bound
+            # and the look-ahead runs dry under schedules that let the workers run far ahead of the user (seen once: thorough C02, user-last)
+            for e in (c["out"], c["in"]):
+                if nodes[e]["delay"] >= nodes[e]["period"]:
+                    return False
     # non-blocking connection from a much slower producer stalls the consumer's look-ahead only
     # by token count: consumer may need up to period_out/period_in steps per message
     for c in cfg["conns"]:
